@@ -42,6 +42,18 @@ AggOK(l, by, keys, groups) ==       \* keys: Seq of key tuples, groups: Seq of S
   /\ \A i \in DOMAIN l : \E g \in DOMAIN keys : keys[g] = KeyTuple(l[i], by)
   /\ \A g \in DOMAIN groups : groups[g] # <<>>
 
+(* split: index lists (0-based) - a partition of the positions by key tuple, groups in order of first appearance,
+   positions ascending inside a group *)
+SplitOK(l, by, groups) ==
+  LET pos(g, t) == groups[g][t] + 1 IN
+  /\ \A g \in DOMAIN groups : groups[g] # <<>> /\ \A t \in DOMAIN groups[g] : pos(g, t) \in DOMAIN l
+  /\ \A i \in DOMAIN l : Cardinality({<<g, t>> \in {<<g2, t2>> \in (DOMAIN groups) \X (1..Len(l)) : t2 \in DOMAIN groups[g2]} : pos(g, t) = i}) = 1
+  /\ \A g \in DOMAIN groups : \A t, u \in DOMAIN groups[g] :
+        /\ KeyTuple(l[pos(g, t)], by) = KeyTuple(l[pos(g, u)], by)
+        /\ (t < u => pos(g, t) < pos(g, u))
+  /\ \A g, h \in DOMAIN groups : g < h => /\ KeyTuple(l[pos(g, 1)], by) # KeyTuple(l[pos(h, 1)], by)
+                                           /\ pos(g, 1) < pos(h, 1)
+
 JudgeJ(e) ==
   LET L == e.L  R == e.R  by == e.a.by  kind == e.a.kind  out == e.out IN
   IF e.err # "" THEN kind \o ":raised"
@@ -56,6 +68,7 @@ JudgeJ(e) ==
   ELSE IF kind = "anti"  THEN (IF out = AntiJoin(L, R, by) THEN "" ELSE "anti_join:not-the-unmatched-items")
   ELSE IF kind = "full"  THEN (IF FullJoinOK(L, R, by, out) THEN "" ELSE "full_join:loses-items-or-merges-unequal-keys")
   ELSE IF kind = "right_unchanged" THEN (IF out = R THEN "" ELSE "join:right-operand-modified")
+  ELSE IF kind = "split" THEN (IF SplitOK(L, by, e.groups) THEN "" ELSE "split:not-the-partition-of-positions-by-key-in-first-appearance-order")
   ELSE IF kind = "aggregate" THEN (IF AggOK(L, by, e.keys, e.groups) THEN "" ELSE "aggregate:not-one-ordered-item-per-group-over-its-items")
   ELSE "unknown"
 Judge2(e) == JudgeJ(e)
